@@ -1015,9 +1015,23 @@ func (c *ClosingNegotiation) ProcessEvent(event ProtocolEvent, env *Environment,
 	// At this point, we know its a new signature message. We'll validate,
 	// and maybe update the set of close terms based on what we receive. We
 	// might update the remote party's address for example.
+	prevRemoteScript := c.RemoteDeliveryScript
 	err := c.updateAndValidateCloseTerms(event, env)
 	if err != nil {
 		return nil, fmt.Errorf("event violates close terms: %w", err)
+	}
+
+	// The close terms are shared with both halves of the negotiation, so
+	// if the event ends up being refused, then a new remote address it
+	// carried must not stick.
+	restoreTermsOnErr := func(transition *CloseStateTransition,
+		err error) (*CloseStateTransition, error) {
+
+		if err != nil {
+			c.RemoteDeliveryScript = prevRemoteScript
+		}
+
+		return transition, err
 	}
 
 	shouldRouteTo := func(party lntypes.ChannelParty) bool {
@@ -1038,18 +1052,22 @@ func (c *ClosingNegotiation) ProcessEvent(event ProtocolEvent, env *Environment,
 			"chan state", env.ChanPoint, event)
 
 		// Drive forward the local state based on the next event.
-		return processNegotiateEvent(c, event, env, lntypes.Local)
+		return restoreTermsOnErr(
+			processNegotiateEvent(c, event, env, lntypes.Local),
+		)
 
 	case shouldRouteTo(lntypes.Remote):
 		chancloserLog.Infof("ChannelPoint(%v): routing %T to remote "+
 
 			"chan state", env.ChanPoint, event)
 		// Drive forward the remote state based on the next event.
-		return processNegotiateEvent(c, event, env, lntypes.Remote)
+		return restoreTermsOnErr(
+			processNegotiateEvent(c, event, env, lntypes.Remote),
+		)
 	}
 
-	return nil, fmt.Errorf("%w: received %T while in %v",
-		ErrInvalidStateTransition, event, c)
+	return restoreTermsOnErr(nil, fmt.Errorf("%w: received %T while in %v",
+		ErrInvalidStateTransition, event, c))
 }
 
 // newSigTlv is a helper function that returns a new optional TLV sig field for
